@@ -50,20 +50,28 @@ pub fn init(verbose: bool) {
     utils::set_panic_hook();
 }
 
+#[cfg(not(feature = "beff_verif"))]
 #[wasm_bindgen]
 extern "C" {
     fn resolve_import(current_file: &str, specifier: &str) -> Option<String>;
 }
 
+#[cfg(not(feature = "beff_verif"))]
 #[wasm_bindgen]
 extern "C" {
     fn read_file_content(file_name: &str) -> Option<String>;
 }
 
+#[cfg(not(feature = "beff_verif"))]
 #[wasm_bindgen]
 extern "C" {
     fn emit_diagnostic(diag: JsValue);
 }
+
+#[cfg(feature = "beff_verif")]
+pub mod verif;
+#[cfg(feature = "beff_verif")]
+use verif::{read_file_content, resolve_import};
 
 #[wasm_bindgen]
 pub fn bundle_to_string_v2(parser_entry_point: &str, settings: &str) -> JsValue {
@@ -146,8 +154,10 @@ fn run_extraction(entry: EntryPoints) -> ParserExtractResult {
 fn print_errors(errors: &[DiagnosticInformation]) {
     let v = WasmDiagnostic::from_diagnostics(errors);
     let v = serde_json::to_string(&v).expect("should be able to serialize diagnostics");
-    let v = JsValue::from_str(&v);
-    emit_diagnostic(v)
+    #[cfg(not(feature = "beff_verif"))]
+    emit_diagnostic(JsValue::from_str(&v));
+    #[cfg(feature = "beff_verif")]
+    verif::emit_diagnostic(v);
 }
 
 fn bundle_to_string_inner(entry: EntryPoints) -> Result<String> {
